@@ -86,7 +86,8 @@ SharesAre(e, shares, col) ==
   /\ \A k \in 1..Len(shares) : shares[k].v = ShareOf(e.M, e.lab, col, shares[k].id)
 
 KwDealOK(e) ==
-  /\ ~e.ok => (NCols(e.M) = 1 /\ EverySingleQualified(e.pol))   \* one-column programmes are refused by design
+  \* one-column programmes are refused by design: every single party is already qualified (or no set is)
+  /\ ~e.ok => (NCols(e.M) = 1 /\ (EverySingleQualified(e.pol) \/ ~SomeSetQualified(e.pol)))
   /\ e.ok =>
        /\ IsVec(e.r, NCols(e.M)) /\ e.r[1] = e.secret /\ e.dfsecret = e.secret
        /\ SharesAre(e, e.shares, e.r)               \* shares = M * r
@@ -125,8 +126,10 @@ AdditiveOK(e) ==
 
 \* ---------------------------------------------------------------- ISN (one piece per maximal unqualified set)
 IsnOK(e) ==
-  \* the scheme lives on the parties that occur in some maximal unqualified set; fewer than two: nothing to build
-  /\ ~e.ok => Cardinality(UNION MaximalUnqualified(e.pol)) < 2
+  \* one piece per maximal unqualified set: the scheme lives on the parties that occur in such a set.  It cannot
+  \* represent a holder that is qualified on its own (refused), and needs two parties to exist at all.
+  /\ ~e.ok => (\/ \E h \in Holders(e) : Qualified(e.pol, {h})
+               \/ Cardinality(UNION MaximalUnqualified(e.pol)) < 2)
   /\ e.ok =>
        LET mus == [j \in 1..Len(e.musc) |-> Range(e.musc[j])] IN
        /\ {mus[j] : j \in 1..Len(mus)} = MaximalUnqualified(e.pol)
